@@ -45,7 +45,7 @@ Check(r) ==
   ELSE
   LET ideal == OT!Ideal(r.mode, r.init, r.evs)
       got == r.yields
-      expl == {d \in OT!KnownDevs : OT!Sim(r.mode, r.init, r.evs, {d}) = got}
+      expl == IF r.extra # <<>> THEN {} ELSE {d \in OT!KnownDevs : OT!Sim(r.mode, r.init, r.evs, {d}) = got}
       spurious == Range(got) \ Range(ideal)
       missing == Range(ideal) \ Range(got)
   IN
